@@ -224,6 +224,10 @@ func (w *World) Image() []FileSpec {
 // beneath that component, so that lookup reports the same errno.
 func (w *World) resolve(name string) string { return w.walk(name, true, 0) }
 
+// ResolvePath is resolve for the orchestrator (no I/O is accounted): the path the kernel would
+// reach for name in this world, relative names against Cwd.
+func (w *World) ResolvePath(name string) string { return w.walk(name, true, 0) }
+
 // resolveNoFollow is resolve for operations that act on a symbolic link itself
 // (lstat, rename, remove, readlink): the last component is not followed.
 func (w *World) resolveNoFollow(name string) string { return w.walk(name, false, 0) }
